@@ -32,6 +32,7 @@
 package c14
 
 import (
+	"crypto/sha256"
 	"fmt"
 	"sort"
 	"strings"
@@ -287,19 +288,19 @@ func addUniq(set []string, x string) []string {
 }
 
 type run struct {
-	c      *checker
-	hist   []sym
-	hoff   uint64 // height offset of the alphabet (0, or 299 on the 255-prune base)
-	base   bool
-	fs     *crashfs.FS
-	root   string
-	st     store
+	c    *checker
+	hist []sym
+	hoff uint64 // height offset of the alphabet (0, or 299 on the 255-prune base)
+	base bool
+	fs   *crashfs.FS
+	root string
+	st   store
 	// ms: the model alternatives consistent with everything observed so far. There is exactly one, except
 	// after a Flush/Close that failed on an injected fault with a batch whose commit is not observable
 	// through LoadAllEntries (a prune that removes nothing, entries of pruned heights): then both
 	// "committed" and "not committed" are kept until a later observation decides.
-	ms   []*model
-	rows []row
+	ms     []*model
+	rows   []row
 	fault  int // injected call index, -1 none
 	fmode  crashfs.FaultMode
 	broken bool // a violation made the rest of the run meaningless
@@ -546,7 +547,7 @@ func (r *run) doOpen(step int) {
 		return err
 	}, func(err error, w *row) {
 		if err != nil {
-			r.violate(fmt.Sprintf("open error on a cleanly closed log fault=%s", r.faultName()), map[string]any{"err": err.Error(), "step": step})
+			r.violate(fmt.Sprintf("open error after close fault=%s", r.faultName()), map[string]any{"err": err.Error(), "step": step})
 			r.broken = true
 			return
 		}
@@ -673,19 +674,17 @@ type checker struct {
 
 func (c *checker) first(h [16]byte, allowed []string, cont bool, probe uint64) bool {
 	// dedupe key: image content + expectation + what is done after the recovery
-	x := h
-	if cont {
-		x[1] ^= 0xa5
-		for i := 0; i < 8; i++ {
-			x[2+i] ^= byte(probe >> (8 * i))
-		}
-	}
+	d := sha256.New()
+	d.Write(h[:])
 	for _, a := range allowed {
-		for i := 0; i < len(a); i++ {
-			x[i&15] = x[i&15]*31 + a[i]
-		}
-		x[0] ^= 0x5a
+		d.Write([]byte(a))
+		d.Write([]byte{0})
 	}
+	if cont {
+		fmt.Fprintf(d, "cont/%d", probe)
+	}
+	var x [16]byte
+	copy(x[:], d.Sum(nil))
 	s := &c.seen[x[0]]
 	s.Lock()
 	defer s.Unlock()
@@ -922,6 +921,10 @@ func (c *checker) recoverOne(r *run, w *row, ci crashfs.CrashInfo, img *crashfs.
 	}
 	if cerr != nil {
 		c.r.Outcome("continuation-failed")
-		r.violate("log unusable after recovery stage="+stage+" "+where, detail(map[string]any{"err": cerr.Error(), "recovered": got}))
+		key := "log unusable after recovery stage=" + stage + " " + where
+		if stage == "pruned-height-accepted" {
+			key = "prune watermark forgotten by recovery (entry of a pruned height accepted and returned) " + where
+		}
+		r.violate(key, detail(map[string]any{"err": cerr.Error(), "recovered": got}))
 	}
 }
